@@ -46,7 +46,14 @@ fn format_number(
         }
     };
     let scale = match scale {
-        Some(expr) => Some(expr.try_integer()?),
+        Some(expr) => {
+            let scale = expr.try_integer()?;
+            // A `Decimal` never has more than `MAX_SCALE` fractional digits.
+            if !(0..=i64::from(Decimal::MAX_SCALE)).contains(&scale) {
+                return Err(format!("scale must be between 0 and {}", Decimal::MAX_SCALE).into());
+            }
+            Some(scale)
+        }
         None => None,
     };
     let grouping_separator = match grouping_separator {
